@@ -58,8 +58,9 @@ VARIABLES phase,     \* "fn" | "main" | "done"
           lastif,    \* the block closed last at this depth was an `if` and nothing followed: `else` is legal
           fns,       \* finished function bodies: sequence of [params, lines, ret]
           cur,       \* the function body being written
-          nloop      \* loops opened so far (names of loop counters)
-vars == <<phase, lines, open, must, lastif, fns, cur, nloop>>
+          nloop,     \* loops opened so far (names of loop counters)
+          stop       \* the last line was a break / continue: nothing more can follow in this block
+vars == <<phase, lines, open, must, lastif, fns, cur, nloop, stop>>
 
 Depth == Len(open)
 IsLoopB(b) == b.kind \in {"for", "while"}
@@ -72,32 +73,32 @@ Params(i) == IF i = 1 THEN <<"xa">> ELSE <<"xa", "xb">>
 LoopVar(k) == IF k = 0 THEN "ia" ELSE IF k = 1 THEN "ib" ELSE "ic"
 
 Init == /\ phase = (IF NFuncs > 0 THEN "fn" ELSE "main") /\ lines = <<>> /\ open = <<>> /\ must = FALSE /\ lastif = FALSE
-        /\ fns = <<>> /\ cur = <<>> /\ nloop = 0
+        /\ fns = <<>> /\ cur = <<>> /\ nloop = 0 /\ stop = FALSE
 
 \* ---- function bodies: straight-line code over the parameters and one local, ended by a return -------------
 FnVars(i) == {Params(i)[q] : q \in 1..Len(Params(i))}
 FnAdd(e) == /\ phase = "fn" /\ Len(cur) < MaxFnLines /\ (IF e.k = "l" THEN e.e.k # "v" ELSE TRUE)
             /\ cur' = Append(cur, Line(1, "assign", "tl", e, ""))
-            /\ UNCHANGED <<phase, lines, open, must, lastif, fns, nloop>>
+            /\ UNCHANGED <<phase, lines, open, must, lastif, fns, nloop, stop>>
 FnWrite(e) == /\ phase = "fn" /\ Len(cur) < MaxFnLines
               /\ cur' = Append(cur, Line(1, "write", "d5", e, ""))
-              /\ UNCHANGED <<phase, lines, open, must, lastif, fns, nloop>>
+              /\ UNCHANGED <<phase, lines, open, must, lastif, fns, nloop, stop>>
 FnEarly(c, e) == /\ phase = "fn" /\ Len(cur) + 1 < MaxFnLines
                  /\ cur' = cur \o <<Line(1, "if", c, "", ""), Line(2, "return", e, "", "")>>
-                 /\ UNCHANGED <<phase, lines, open, must, lastif, fns, nloop>>
+                 /\ UNCHANGED <<phase, lines, open, must, lastif, fns, nloop, stop>>
 FnReturn(e) == /\ phase = "fn"
                /\ fns' = Append(fns, [params |-> Params(Len(fns) + 1), lines |-> Append(cur, Line(1, "return", e, "", ""))])
                /\ cur' = <<>> /\ phase' = (IF Len(fns) + 1 = NFuncs THEN "main" ELSE "fn")
-               /\ UNCHANGED <<lines, open, must, lastif, nloop>>
+               /\ UNCHANGED <<lines, open, must, lastif, nloop, stop>>
 FnStep == LET i == Len(fns) + 1
               names == FnVars(i) \cup (IF \E q \in 1..Len(cur) : cur[q].kind = "assign" THEN {"tl"} ELSE {}) IN
           \/ \E e \in ExprsP(names) : FnAdd(e) \/ FnWrite(e) \/ FnReturn(e)
           \/ \E c \in Pick(Conds(FnVars(i))), e \in ExprsP(FnVars(i)) : FnEarly(c, e)
 
 \* ---- the main part ---------------------------------------------------------------------------------------
-Room == Len(lines) < MaxLines
+Room == Len(lines) < MaxLines /\ ~stop
 Put(l, op2, must2, lastif2) == /\ lines' = Append(lines, l) /\ open' = op2 /\ must' = must2 /\ lastif' = lastif2
-                               /\ UNCHANGED <<phase, fns, cur>>
+                               /\ stop' = (l.kind \in {"break", "continue"}) /\ UNCHANGED <<phase, fns, cur>>
 \* a variable that bounds an open `for` loop is not assigned in its body (the bound is re-read: listed finding)
 Targets == Vars \ {open[i].bnd : i \in 1..Len(open)}
 \* loop variables are readable only inside their own loop
@@ -114,20 +115,21 @@ OpenElse == phase = "main" /\ Room /\ lastif /\ ~must /\ Len(lines) + 1 < MaxLin
 OpenFor(x) == phase = "main" /\ Room /\ Depth < MaxDepth /\ nloop < 3 /\ Len(lines) + 1 < MaxLines
               /\ Put(Line(Depth, "for", LoopVar(nloop), x, ""), Append(open, [B("for", LoopVar(nloop)) EXCEPT !.bnd = x.n]), TRUE, FALSE) /\ nloop' = nloop + 1
 \* a while loop with its own counter: `wK = 0` / `while wK < bound:` / `wK = wK + 1` as first body line
-OpenWhile(bound) == phase = "main" /\ Depth < MaxDepth /\ nloop < 3 /\ Len(lines) + 3 < MaxLines
+OpenWhile(bound) == phase = "main" /\ ~stop /\ Depth < MaxDepth /\ nloop < 3 /\ Len(lines) + 3 < MaxLines
                     /\ lines' = lines \o <<Line(Depth, "winit", LoopVar(nloop), "", ""), Line(Depth, "while", LoopVar(nloop), bound, ""),
                                           Line(Depth + 1, "wstep", LoopVar(nloop), "", "")>>
                     /\ open' = Append(open, B("while", LoopVar(nloop))) /\ must' = FALSE /\ lastif' = FALSE /\ nloop' = nloop + 1
-                    /\ UNCHANGED <<phase, fns, cur>>
-Break == phase = "main" /\ Room /\ InLoop /\ Depth >= 2 /\ open[Depth].kind \in {"if", "else"} /\ must
+                    /\ UNCHANGED <<phase, fns, cur, stop>>
+\* break / continue end a conditional block inside a loop (anywhere in the block, also after other statements)
+Break == phase = "main" /\ Room /\ InLoop /\ Depth >= 2 /\ open[Depth].kind \in {"if", "else"}
          /\ Put(Line(Depth, "break", "", "", ""), open, FALSE, FALSE) /\ UNCHANGED nloop
-Continue == phase = "main" /\ Room /\ InnermostLoop = "while" /\ Depth >= 2 /\ open[Depth].kind \in {"if", "else"} /\ must
+Continue == phase = "main" /\ Room /\ InnermostLoop = "while" /\ Depth >= 2 /\ open[Depth].kind \in {"if", "else"}
             /\ Put(Line(Depth, "continue", "", "", ""), open, FALSE, FALSE) /\ UNCHANGED nloop
 Close == /\ phase = "main" /\ Depth > 0 /\ ~must
-         /\ open' = SubSeq(open, 1, Depth - 1) /\ lastif' = (open[Depth].kind = "if") /\ must' = FALSE
+         /\ open' = SubSeq(open, 1, Depth - 1) /\ lastif' = (open[Depth].kind = "if") /\ must' = FALSE /\ stop' = FALSE
          /\ UNCHANGED <<phase, lines, fns, cur, nloop>>
 Finish == /\ phase = "main" /\ ~must /\ Len(lines) > 0 /\ (Len(lines) >= MinLines \/ Len(lines) + 1 >= MaxLines)
-          /\ phase' = "done" /\ open' = <<>> /\ UNCHANGED <<lines, must, lastif, fns, cur, nloop>>
+          /\ phase' = "done" /\ open' = <<>> /\ stop' = FALSE /\ UNCHANGED <<lines, must, lastif, fns, cur, nloop>>
 
 MainStep ==
   \/ Targets # {} /\ \E v \in Pick(Targets), e \in ExprsP(Names) : (IF e.k = "l" THEN e.e.k # "v" ELSE TRUE) /\ Assign(v, e)   \* no bare copies x = y
